@@ -1,8 +1,118 @@
-//! C12: the sync-discipline clauses as predicates over the I/O log.
+//! C12: the sync-discipline clauses as predicates over the ordered I/O log.
+//!
+//! The harness puts markers into the log: `quiescent active=<id>` at every quiescent point,
+//! `begin <op> active=<id>` / `end <op> ok|err` around every API call.
 
-use crate::oracle::Finding;
-use crate::tap::IoLog;
+use crate::ctl::{is_blob, is_index};
+use crate::oracle::{finding, Finding};
+use crate::tap::{blob_id, short_path, Entry, IoLog, SyncState};
+use pearl::verif::IoOp;
 
-pub fn check_log(_log: &IoLog, _max_dirty: Option<u64>) -> Vec<Finding> {
-    Vec::new()
+fn active_of(mark: &str) -> Option<usize> {
+    mark.split("active=").nth(1)?.split_whitespace().next()?.parse().ok()
+}
+
+fn dirty_of_blob(st: &SyncState, id: usize) -> Option<(u64, u64)> {
+    st.len
+        .iter()
+        .find(|(p, _)| is_blob(p) && blob_id(p) == Some(id) && !p.to_string_lossy().contains("/corrupted/"))
+        .map(|(p, l)| (*l, st.synced.get(p).copied().unwrap_or(0)))
+}
+
+pub fn check_log(log: &IoLog, max_dirty: Option<u64>) -> Vec<Finding> {
+    let max_dirty = max_dirty.unwrap_or(32 * 1024 * 1024);
+    let mut st = SyncState::default();
+    let mut out = Vec::new();
+    let mut current: Option<(String, Option<usize>)> = None;
+    for e in &log.entries {
+        match e {
+            Entry::Io { ev, faulted, .. } if !faulted => {
+                match &ev.op {
+                    IoOp::Write { offset, .. } if is_blob(&ev.path) && *offset >= 20 => {
+                        // (b) the blob header is durable before any record is appended
+                        let synced = st.synced.get(&ev.path).copied().unwrap_or(0);
+                        if synced < 20 {
+                            out.push(finding(
+                                "sync.header",
+                                format!(
+                                    "record written to {} at offset {} before its header was synced (synced {})",
+                                    short_path(&ev.path),
+                                    offset,
+                                    synced
+                                ),
+                            ));
+                        }
+                    }
+                    IoOp::Write { offset: 0, data, .. } if is_index(&ev.path) && data.len() == 83 && data[72] & 1 == 1 => {
+                        // (c) the index is marked complete only after the blob bytes it describes were synced
+                        let blob_size = u64::from_le_bytes(data[75..83].try_into().unwrap());
+                        let blob_path = ev.path.with_extension("blob");
+                        let synced = st.synced.get(&blob_path).copied().unwrap_or(0);
+                        if synced < blob_size {
+                            out.push(finding(
+                                "sync.index_before_blob",
+                                format!(
+                                    "{} marked complete for a blob of {} bytes, but only {} bytes of the blob are synced",
+                                    short_path(&ev.path),
+                                    blob_size,
+                                    synced
+                                ),
+                            ));
+                        }
+                    }
+                    _ => {}
+                }
+                st.apply(e);
+            }
+            Entry::Io { .. } | Entry::Opened { .. } => st.apply(e),
+            Entry::Mark(m) => {
+                if m.starts_with("quiescent") {
+                    // (a) bounded un-synced data of the active blob without further client action
+                    if let Some(id) = active_of(m) {
+                        if let Some((len, synced)) = dirty_of_blob(&st, id) {
+                            if len.saturating_sub(synced) > max_dirty {
+                                out.push(finding(
+                                    "sync.dirty_bound",
+                                    format!(
+                                        "at quiescence the active blob {} has {} un-synced bytes (len {}, synced {}), limit {}",
+                                        id,
+                                        len - synced,
+                                        len,
+                                        synced,
+                                        max_dirty
+                                    ),
+                                ));
+                            }
+                        }
+                    }
+                } else if let Some(rest) = m.strip_prefix("begin ") {
+                    let name = rest.split_whitespace().next().unwrap_or("").to_string();
+                    current = Some((name, active_of(m)));
+                } else if let Some(rest) = m.strip_prefix("end ") {
+                    let ok = rest.ends_with(" ok");
+                    if let Some((name, Some(id))) = current.take() {
+                        // (d) explicit fsyncdata / successful close of the active blob leave nothing un-synced
+                        if ok && matches!(name.as_str(), "Fsync" | "TryClose" | "Rst" | "RstLazy" | "CloseBg") {
+                            if let Some((len, synced)) = dirty_of_blob(&st, id) {
+                                if synced < len {
+                                    out.push(finding(
+                                        "sync.explicit",
+                                        format!(
+                                            "after {} returned, blob {} still has {} un-synced bytes (len {}, synced {})",
+                                            name,
+                                            id,
+                                            len - synced,
+                                            len,
+                                            synced
+                                        ),
+                                    ));
+                                }
+                            }
+                        }
+                    }
+                }
+            }
+        }
+    }
+    out
 }
